@@ -55,7 +55,7 @@ def correspond(ctx):
     ca = core.impl_module()
     from cisco_acl import functions as fn
     rnd = random.Random(ctx.seed)
-    n = 500 if ctx.tier == "quick" else 10000
+    n = 500 if ctx.tier == "quick" else 5000
     cases, nontrivial = [], set()
     for _ in range(n):
         toks = gen_request(rnd)
